@@ -101,7 +101,53 @@ func init() {
 	c11Templates["Sm4OFB/dec"] = ofb
 }
 
+// normC11: spelling variants that denote the same bytes: (i+1)*16 for i*16+16; the 16-byte scratch block K for
+// K[:16]; reading the package IV directly for reading a private copy of it (nobody writes through it: FX-C11-inputs)
+func normC11(s string) string {
+	s = strings.ReplaceAll(s, "mul(0x10,add(0x1,i))", "add(0x10,mul(0x10,i))")
+	s = strings.ReplaceAll(s, "slice(K,_,0x10)", "K")
+	s = strings.ReplaceAll(s, "init:global:IV", "init:copyN(0x10,global:IV)")
+	return s
+}
+
 func matchTemplate(ld loopDesc, t modeTemplate) bool {
+	ld.Events = append([]string{}, ld.Events...)
+	ld.Phis = append([]string{}, ld.Phis...)
+	t.events = append([]string{}, t.events...)
+	t.phis = append([]string{}, t.phis...)
+	for i := range ld.Events {
+		ld.Events[i] = normC11(ld.Events[i])
+	}
+	for i := range ld.Phis {
+		ld.Phis[i] = normC11(ld.Phis[i])
+	}
+	for i := range t.events {
+		t.events[i] = normC11(t.events[i])
+	}
+	for i := range t.phis {
+		t.phis[i] = normC11(t.phis[i])
+	}
+	// the block cipher writing straight into its slot of the output instead of into a scratch block that is then
+	// copied there: the scratch role K IS the output slot
+	mentionsOut := false
+	for _, e := range ld.Events {
+		if strings.Contains(e, "OUT") {
+			mentionsOut = true
+		}
+	}
+	if !mentionsOut {
+		O := blk("OUT", "i")
+		hasCopy := false
+		for i, e := range ld.Events {
+			if strings.Contains(e, "copy(K, ") {
+				ld.Events[i] = strings.Replace(e, "copy(K, ", "copy("+O+", ", 1)
+				hasCopy = true
+			}
+		}
+		if !hasCopy {
+			ld.Events = append(ld.Events, "copy("+O+", K)")
+		}
+	}
 	if len(ld.Events) != len(t.events) {
 		return false
 	}
